@@ -19,6 +19,29 @@ class Node:
         return 'N%d:%s@%s' % (self.id, self.kind, loc_str(self.ast) if self.ast else '')
 
 
+def _unwrap(e):
+    e = strip(e)
+    while isinstance(e, dict) and e.get('k') in ('cast', 'load') and e.get('e') is not None and \
+            (e.get('k') == 'load' or e.get('ck') in (None, 'NoOp', 'LValueToRValue', 'IntegralToBoolean', 'IntegralCast')):
+        e = strip(e['e'])
+    return e
+
+
+def subst_params(e, binds):
+    """copy of expression e with references to the parameters in `binds` ({param id: argument expression}) replaced"""
+    if isinstance(e, list):
+        return [subst_params(x, binds) for x in e]
+    if not isinstance(e, dict):
+        return e
+    if e.get('k') == 'ref' and e.get('rk') == 'param' and e.get('id') in binds:
+        return binds[e['id']]
+    if e.get('k') == 'load' and isinstance(e.get('e'), dict) and e['e'].get('k') == 'ref' and e['e'].get('rk') == 'param' and e['e'].get('id') in binds:
+        a = binds[e['e']['id']]
+        # a reference parameter bound to an lvalue: reading it reads the argument
+        return a if (a.get('k') == 'load' or not a.get('lv')) else dict(e, e=a)
+    return {k: (subst_params(v, binds) if k not in ('t', 'l') else v) for k, v in e.items()}
+
+
 class CFG:
     def __init__(self, fn):
         self.fn = fn
@@ -26,7 +49,155 @@ class CFG:
         self.entry = self.new('entry')
         self.exit = self.new('exit')
         self.loops = []         # (head node id, body statement ast, loop ast)
-        self._build(fn['body'])
+        from . import facts as _facts
+        self.prog = _facts.PROG_OF.get(id(fn))
+        self._inline_depth = 0
+        # `const bool` locals: a test of the local is a test of its initialiser, provided nothing the initialiser reads is written
+        # between the declaration and the test (checked on the statement order of the function)
+        self.bool_inits = {}
+        for x in walk(fn['body']):
+            if isinstance(x, dict) and x.get('k') == 'decl':
+                for v in x['vars']:
+                    t = v.get('t') or {}
+                    if t.get('k') == 'bool' and t.get('const') and v.get('init') is not None and v.get('id') is not None:
+                        self.bool_inits[v['id']] = (v['init'], v.get('l'))
+        # local function objects (`auto step = [&] { ... };`): the body is inlined at every call of the closure
+        self.lambdas = {}
+        for x in walk(fn['body']):
+            if isinstance(x, dict) and x.get('k') == 'decl':
+                for v in x['vars']:
+                    ini = v.get('init')
+                    while isinstance(ini, dict) and ini.get('k') in ('cast', 'copyctor', 'bind', 'materialize') and isinstance(ini.get('e'), dict):
+                        ini = ini['e']
+                    if isinstance(ini, dict) and ini.get('k') == 'lambda' and v.get('id') is not None:
+                        self.lambdas[v['id']] = ini
+        self._ret_collect = None
+        self._unsafe_bools = set()
+        for _ in range(4):
+            self.nodes = []
+            self.entry = self.new('entry')
+            self.exit = self.new('exit')
+            self.loops = []
+            self._subst_uses = []
+            self._build(fn['body'])
+            bad = self._verify_substitutions()
+            if not bad:
+                break
+            self._unsafe_bools |= bad
+
+    def _verify_substitutions(self):
+        """a test of a const bool local was replaced by a test of its initialiser: exact only if no path from the declaration to the
+        test writes something the initialiser reads"""
+        if not self._subst_uses:
+            return set()
+        preds = {}
+        for n in self.nodes:
+            for (y, lab) in n.succ:
+                preds.setdefault(y, []).append(n.id)
+        bad = set()
+        for (vid, first_node, roots) in self._subst_uses:
+            decl = None
+            for n in self.nodes:
+                if n.kind == 'stmt' and n.ast is not None and n.ast.get('k') == 'decl' and any(v.get('id') == vid for v in n.ast['vars']):
+                    decl = n
+            if decl is None:
+                bad.add(vid)
+                continue
+            fwd = self.reachable(start=decl.id)
+            back = set()
+            stack = [first_node]
+            while stack:
+                x = stack.pop()
+                if x in back:
+                    continue
+                back.add(x)
+                if x == decl.id:
+                    continue        # a path that passes the declaration again re-evaluates the initialiser there
+                stack.extend(preds.get(x, []))
+            between = (fwd & back) - {decl.id, first_node}
+            for nid in between:
+                n = self.nodes[nid]
+                if n.ast is not None and self._ast_writes(n.ast, roots):
+                    bad.add(vid)
+                    break
+        return bad
+
+    def _ast_writes(self, ast, roots):
+        for x in walk(ast):
+            if not isinstance(x, dict):
+                continue
+            k = x.get('k')
+            if k == 'assign' or (k == 'un' and x.get('op') in ('++', '--')):
+                tgt = x.get('lhs') or x.get('e')
+                if self._roots(tgt) & roots:
+                    return True
+            elif k == 'call':
+                cal = self.prog.callee(x, self.fn) if self.prog is not None else None
+                th = x.get('this')
+                if th is not None and (self._roots(th) & roots) and not (cal or {}).get('const_method'):
+                    return True
+                for i, a in enumerate(x.get('args', [])):
+                    if self._roots(a) & roots:
+                        pt = (cal['params'][i]['t'] if cal is not None and i < len(cal.get('params', [])) else {})
+                        if pt.get('k') in ('ref', 'ptr') and not (pt.get('pointee') or {}).get('const'):
+                            return True
+                        if cal is None and x.get('name') in ('memcpy', 'memmove', 'memset') and i == 0:
+                            return True
+        return False
+
+    # ----- conditions written through a named boolean or a small predicate helper -----
+    def _roots(self, e):
+        out = set()
+        for x in walk(e):
+            if isinstance(x, dict) and x.get('k') == 'ref' and x.get('rk') in ('local', 'param'):
+                out.add(x.get('id'))
+            if isinstance(x, dict) and x.get('k') == 'this':
+                out.add('this')
+        return out
+
+    def _written_between(self, roots, l0, l1):
+        """is an object rooted at one of `roots` (possibly) written by a statement located between the two source positions?"""
+        if not l0 or not l1:
+            return True
+        lo, hi = (l0[1], l0[2]), (l1[1], l1[2])
+        for x in walk(self.fn['body']):
+            if not isinstance(x, dict) or not x.get('l') or not (lo < (x['l'][1], x['l'][2]) < hi):
+                continue
+            k = x.get('k')
+            if k == 'assign' or (k == 'un' and x.get('op') in ('++', '--')):
+                tgt = x.get('lhs') or x.get('e')
+                if self._roots(tgt) & roots:
+                    return True
+            elif k == 'call':
+                cal = self.prog.callee(x, self.fn) if self.prog is not None else None
+                th = x.get('this')
+                if th is not None and (self._roots(th) & roots) and not (cal or {}).get('const_method'):
+                    return True
+                for i, a in enumerate(x.get('args', [])):
+                    if self._roots(a) & roots:
+                        pt = (cal['params'][i]['t'] if cal is not None and i < len(cal.get('params', [])) else {})
+                        if pt.get('k') in ('ref', 'ptr') and not (pt.get('pointee') or {}).get('const'):
+                            return True
+                        if cal is None and x.get('name') in ('memcpy', 'memmove', 'memset') and i == 0:
+                            return True
+        return False
+
+    def _predicate_helper(self, call):
+        """(return expression, parameter bindings) of a call to an internal-linkage free function returning bool whose body is a single
+        `return <expr>;` - a named condition"""
+        if self.prog is None or call.get('this') is not None:
+            return None
+        cal = self.prog.callee(call, self.fn)
+        if cal is None or 'body' not in cal or cal.get('linkage') != 'internal' or (cal.get('ret') or {}).get('k') != 'bool' or cal.get('method'):
+            return None
+        body = cal['body']
+        stmts = body.get('body', []) if body.get('k') == 'compound' else [body]
+        if len(stmts) != 1 or stmts[0].get('k') != 'return' or stmts[0].get('e') is None:
+            return None
+        args = call.get('args', [])
+        if len(args) != len(cal.get('params', [])):
+            return None
+        return stmts[0]['e'], {p['id']: a for p, a in zip(cal['params'], args)}
 
     def new(self, kind, ast=None):
         n = Node(len(self.nodes), kind, ast)
@@ -61,6 +232,27 @@ class CFG:
         if isinstance(e, dict) and e.get('k') == 'un' and e.get('op') == '!':
             t, f = self._cond(e['e'], preds)
             return f, t
+        u = _unwrap(e)
+        if isinstance(u, dict) and u.get('k') == 'ref' and u.get('rk') == 'local' and u.get('id') in self.bool_inits and \
+                u.get('id') not in self._unsafe_bools and self._inline_depth < 6:
+            init, l0 = self.bool_inits[u['id']]
+            self._inline_depth += 1
+            try:
+                n0 = len(self.nodes)
+                r = self._cond(init, preds)
+                if len(self.nodes) > n0:
+                    self._subst_uses.append((u['id'], n0, self._roots(init)))
+                return r
+            finally:
+                self._inline_depth -= 1
+        if isinstance(u, dict) and u.get('k') == 'call' and self._inline_depth < 6:
+            ph = self._predicate_helper(u)
+            if ph is not None:
+                self._inline_depth += 1
+                try:
+                    return self._cond(subst_params(ph[0], ph[1]), preds)
+                finally:
+                    self._inline_depth -= 1
         n = self.new('cond', e)
         self._connect(preds, n)
         return [(n, True)], [(n, False)]
@@ -74,6 +266,31 @@ class CFG:
             for c in s['body']:
                 preds = self._stmt(c, preds, brk, cont)
             return preds
+        if k == 'expr':
+            e0 = strip(s.get('e'))
+            if isinstance(e0, dict) and e0.get('k') == 'lcall':
+                cl = strip(e0.get('closure'))
+                while isinstance(cl, dict) and cl.get('k') in ('cast', 'load') and isinstance(cl.get('e'), dict):
+                    cl = strip(cl['e'])
+                lam = self.lambdas.get(cl.get('id')) if isinstance(cl, dict) and cl.get('k') == 'ref' else None
+                if lam is not None and lam.get('body') is not None and not lam.get('params') and lam.get('allref') and self._inline_depth < 6:
+                    # a call of a parameterless by-reference closure: its statements run here, on the caller's variables
+                    saved = self._ret_collect
+                    self._ret_collect = []
+                    self._inline_depth += 1
+                    try:
+                        out = self._stmt(lam['body'], preds, None, None)
+                        out = out + self._ret_collect
+                    finally:
+                        self._inline_depth -= 1
+                        self._ret_collect = saved
+                    return out
+        if k == 'decl' and any(v.get('id') in self.lambdas for v in s.get('vars', [])):
+            # the declaration of a closure executes nothing: keep its body out of the node
+            s2 = dict(s, vars=[dict(v, init={'k': 'lambda-decl', 'l': v.get('l')}) if v.get('id') in self.lambdas else v for v in s['vars']])
+            n = self.new('stmt', s2)
+            self._connect(preds, n)
+            return [(n, None)]
         if k in ('expr', 'decl', 'null', 'asm'):
             n = self.new('stmt', s)
             self._connect(preds, n)
@@ -81,6 +298,10 @@ class CFG:
         if k == 'return':
             n = self.new('stmt', s)
             self._connect(preds, n)
+            if self._ret_collect is not None:
+                # a return inside an inlined closure body ends the closure, not the function
+                self._ret_collect.append((n, None))
+                return []
             self.edge(n, self.exit, None)
             return []
         if k == 'break':
